@@ -1,1 +1,185 @@
-//! (to be filled)
+//! Repr family: FromRepr. Checker for C06.
+
+use crate::*;
+use proptest::prelude::*;
+use serde_json::json;
+use vmodel::model;
+
+pub trait RGlue: Glue {
+    /// None when d does not fit the discriminant type
+    fn from_repr(d: i128) -> Option<Option<Self>>;
+    /// the discriminant rustc gave this value (`as` cast, or the documented pointer read)
+    fn as_repr(&self) -> Option<i128> {
+        None
+    }
+    /// (d, index of the variant returned by a const-evaluated from_repr(d))
+    fn const_results() -> Vec<(i128, Option<usize>)> {
+        vec![]
+    }
+}
+
+struct RM {
+    /// (disc, variant index, enabled)
+    discs: Vec<(i128, usize, bool)>,
+    fields: Vec<Vec<String>>,
+}
+
+fn expect(m: &RM, d: i128) -> Option<usize> {
+    m.discs.iter().find(|(x, _, en)| *x == d && *en).map(|x| x.1)
+}
+
+fn eval<E: RGlue>(m: &RM, d: i128) -> Result<bool, (String, String, String)> {
+    let got = match catch(|| E::from_repr(d)) {
+        Ok(None) => return Ok(false),
+        Ok(Some(g)) => g,
+        Err(p) => return Err(("from_repr-panic".into(), "no panic".into(), p)),
+    };
+    let want = expect(m, d);
+    match (&got, want) {
+        (None, None) => Ok(true),
+        (Some(v), Some(i)) => {
+            if v.idx() != i {
+                return Err(("from_repr-wrong-variant".into(), format!("Some(variant #{})", i), format!("Some(variant #{})", v.idx())));
+            }
+            if v.fields() != m.fields[i] {
+                return Err(("from_repr-payload".into(), format!("{:?}", m.fields[i]), format!("{:?}", v.fields())));
+            }
+            Ok(true)
+        }
+        (Some(v), None) => {
+            let dis = m.discs.iter().any(|(x, i, en)| *x == d && !*en && *i == v.idx());
+            Err((if dis { "from_repr-disabled-variant-produced" } else { "from_repr-unexpected-some" }.into(), "None".into(), format!("Some(variant #{})", v.idx())))
+        }
+        (None, Some(i)) => Err(("from_repr-missing".into(), format!("Some(variant #{})", i), "None".into())),
+    }
+}
+
+pub fn c06<E: RGlue>(ctx: &mut Ctx) {
+    let spec = ctx.spec;
+    let ds = model::discs(spec);
+    let m = RM {
+        discs: ds.iter().enumerate().map(|(i, d)| (*d, i, !spec.variants[i].disabled())).collect(),
+        fields: spec.variants.iter().map(|v| model::default_fields(v)).collect(),
+    };
+    let repr = spec.repr_int.clone();
+    let (lo, hi) = model::repr_range(repr.as_deref());
+    if let Some(r) = ctx.replay() {
+        let d: i128 = r["d"].as_str().map(|s| s.parse().unwrap()).unwrap_or_else(|| r["d"].as_i64().unwrap() as i128);
+        ctx.eval();
+        if let Err((k, e, a)) = eval::<E>(&m, d) {
+            ctx.fail(&k, json!({"d": d.to_string()}), e, a);
+        }
+        return;
+    }
+    let has_disabled_before_enabled = {
+        let last_en = spec.enabled_indices().last().copied().unwrap_or(0);
+        spec.variants.iter().enumerate().any(|(i, v)| v.disabled() && i < last_en)
+    };
+    let interesting_prog = has_disabled_before_enabled
+        || spec.variants.iter().any(|v| v.disc.is_some())
+        || matches!(repr.as_deref(), Some("i8") | Some("i16") | Some("i32") | Some("i64") | Some("isize"));
+    let near = |d: i128| ds.iter().any(|x| (x - d).abs() <= 1);
+    let mut one = |ctx: &mut Ctx, d: i128, class: &str| {
+        match eval::<E>(&m, d) {
+            Ok(true) => {
+                ctx.eval();
+                ctx.class(class);
+                if interesting_prog && near(d) {
+                    ctx.nontrivial(&d.to_le_bytes());
+                }
+            }
+            Ok(false) => {}
+            Err((k, e, a)) => {
+                ctx.eval();
+                ctx.fail(&k, json!({"d": d.to_string(), "class": class, "repr": repr}), e, a)
+            }
+        }
+    };
+    // model vs. compiler: every constructible value reports the discriminant the model predicts,
+    // and from_repr(v as R) == Some(v)
+    for (i, v) in spec.variants.iter().enumerate() {
+        let _ = v;
+        let mut dr = Draw::new(vec![1, 2, 3]);
+        let val = E::make(i, &mut dr);
+        if let Some(r) = val.as_repr() {
+            ctx.eval();
+            if r != ds[i] {
+                // the harness's own model disagrees with rustc: generator / model bug, not strum's
+                panic!("model discriminant {} != rustc discriminant {} for variant #{} of {}", ds[i], r, i, spec.name);
+            }
+        }
+        one(ctx, ds[i], "declared-discriminant");
+    }
+    for (d, idx) in E::const_results() {
+        ctx.eval();
+        ctx.class("const-evaluated");
+        if idx != expect(&m, d) {
+            ctx.fail("from_repr-const-eval", json!({"d": d.to_string()}), format!("{:?}", expect(&m, d)), format!("{:?}", idx));
+        }
+    }
+    let bits = match repr.as_deref() {
+        Some("u8") | Some("i8") => 8,
+        Some("u16") | Some("i16") => 16,
+        _ => 64,
+    };
+    if bits <= 16 {
+        let mut n = 0;
+        let mut d = lo;
+        while d <= hi {
+            one(ctx, d, "exhaustive");
+            n += 1;
+            d += 1;
+        }
+        ctx.exhaustive(&format!("every value of the {}-bit discriminant type", bits), n);
+    } else {
+        let mut pts: Vec<i128> = vec![0, 1, -1, lo, hi, lo + 1, hi - 1];
+        for d in &ds {
+            pts.extend([d - 1, *d, d + 1, d - 2, d + 2, d ^ 0x100, d.wrapping_neg()]);
+        }
+        // dense indices are a classic wrong answer
+        for i in 0..(spec.variants.len() as i128 + 2) {
+            pts.push(i);
+        }
+        pts.sort();
+        pts.dedup();
+        for d in pts {
+            if d >= lo && d <= hi {
+                one(ctx, d, "boundary");
+            }
+        }
+        let cases = ctx.param("cases", 2000) as u32;
+        let seed = ctx.seed;
+        let ds2 = ds.clone();
+        let strat = prop_oneof![
+            3 => (lo..=hi).boxed(),
+            2 => (-300i128..300).boxed(),
+            2 => (0..ds2.len().max(1), -3i128..=3).prop_map(move |(i, off)| if ds2.is_empty() { off } else { ds2[i] + off }).boxed(),
+        ]
+        .boxed();
+        let shrunk = {
+            let mut f = |d: &i128, counting: bool| -> Option<String> {
+                if *d < lo || *d > hi {
+                    return None;
+                }
+                if counting {
+                    ctx.eval();
+                    ctx.class("random");
+                    if interesting_prog && near(*d) {
+                        ctx.nontrivial(&d.to_le_bytes());
+                    }
+                }
+                eval::<E>(&m, *d).err().map(|x| x.0)
+            };
+            prop_run(seed, cases, &strat, &mut f)
+        };
+        if let Some(d) = shrunk {
+            if let Err((k, e, a)) = eval::<E>(&m, d) {
+                ctx.fail(&k, json!({"d": d.to_string(), "class": "random", "repr": repr, "shrunk": true}), e, a);
+            }
+        }
+    }
+    ctx.class(&format!("repr={}", repr.as_deref().unwrap_or("none")));
+    ctx.sample(json!({"enum": spec.name, "repr": repr, "discriminants": ds.iter().map(|d| d.to_string()).collect::<Vec<_>>(),
+        "disabled": spec.variants.iter().map(|v| v.disabled()).collect::<Vec<_>>(),
+        "exprs": spec.variants.iter().map(|v| v.disc.as_ref().map(|d| d.text.clone())).collect::<Vec<_>>()}));
+}
